@@ -99,6 +99,7 @@ type World struct {
 	Q       *C08State
 	ByHash  map[common.Hash]*Sent
 	C10     *C10Model
+	C17     *C17Model
 	opIdx   int
 }
 
